@@ -57,7 +57,8 @@ def choicesAt (l : Loc) (cs : ConnSt) (fresh : Nat) : List Choice :=
       (if cs.prep then [] else [.unwatch])     -- a queued UNWATCH reports nothing and changes nothing EXEC's reset does not
     ({ call := .embed } : Choice) :: cmds.map fun c => { call := .cmd c }
   | .call => [{ pre := .ok }, { pre := .argErr }, { pre := .panic }]
-  | .b0 => [{ body := .beginTx }, { body := .finish false }, { body := .finish true }, { body := .panic }]
+  | .b0 => [{ body := .beginTx }, { body := .finish false }, { body := .finish true }, { body := .panic },
+            { body := .bpop false }, { body := .bpop true }]
   | .b1 | .ec1 => [{ fresh := fresh }]
   | .b2 => [{ body := .signal "k" }, { body := .signal "o" }, { body := .endTx }, { body := .panic }]
   | .p2 => [{ body := .beginTx }, { body := .finish false, found := true }, { body := .finish false, found := false }, { body := .panic }]
